@@ -137,6 +137,19 @@ func metaStr(c map[string]any, f string) string {
 // UID of content.
 func UID(c map[string]any) string { return metaStr(c, "uid") }
 
+// Touch bumps the resourceVersion of k without any change visible in the model (a write by
+// another actor to a part of the object the model does not keep, e.g. managedFields).
+func (s *Store) Touch(k Key) bool {
+	o := s.Objs[k]
+	if o == nil {
+		return false
+	}
+	c := runtime.DeepCopyJSON(o.Content)
+	c["metadata"].(map[string]any)["resourceVersion"] = s.nextRV()
+	o.Content = c
+	return true
+}
+
 // RVOf content.
 func RVOf(c map[string]any) string { return metaStr(c, "resourceVersion") }
 
